@@ -14,7 +14,8 @@ EXPLANATION = (
     "Static decision of the structural clauses of C09.  (1) Exhaustive routing in Executor.run_one_tick: a validation that "
     "asserts 0 <= pool_id < num_pools for every element of both command lists dominates the routing loop, which hands every "
     "pool exactly the commands whose pool_id equals its index (identity filter) and collects every pool's results.  (2) one "
-    "Container per element of the assignments list, appended to active once (move new->active).  (3) the move active->gone "
+    "Container per element of the assignments list, appended to active once (move new->active); each pool owns its three holder lists "
+    "(fresh in __init__, none bound at class level).  (3) the move active->gone "
     "creates exactly one ExecutionResult, appended to the list that run_one_tick returns unfiltered; no other move creates a "
     "result.  (4) the result's fields are the container's own (ops, cpu, ram, priority, pool, id, error).  (5) success <=> no "
     "error: num_completed counts iff error is None, failed() == (error is not None), Container.error is written only by "
